@@ -1438,3 +1438,43 @@ func expandHelperCond(c Cond, depth int) []Cond {
 	out = append(out, DominatingConds(rv.At.Block())...)
 	return out
 }
+
+// WithHelpers returns fn together with the small unexported functions and
+// methods of its own package that it calls (transitively, up to depth 2) —
+// the view a rule needs that must not care whether a few statements were
+// extracted into a helper. A helper is included only if it is unexported and
+// has at most maxBlocks basic blocks.
+func WithHelpers(fn *ssa.Function, maxBlocks int) []*ssa.Function {
+	out := []*ssa.Function{fn}
+	seen := map[*ssa.Function]bool{fn: true}
+	var add func(f *ssa.Function, depth int)
+	add = func(f *ssa.Function, depth int) {
+		if depth >= 2 {
+			return
+		}
+		EachInstrDeep(f, func(_ *ssa.Function, in ssa.Instruction) {
+			c, ok := in.(ssa.CallInstruction)
+			if !ok {
+				return
+			}
+			cal := c.Common().StaticCallee()
+			if cal == nil || seen[cal] || cal.Pkg != fn.Pkg || cal.Blocks == nil || len(cal.Blocks) > maxBlocks || cal.Object() == nil || cal.Object().Exported() {
+				return
+			}
+			seen[cal] = true
+			out = append(out, cal)
+			add(cal, depth+1)
+		})
+	}
+	add(fn, 0)
+	return out
+}
+
+// CallsToWithHelpers is CallsTo over WithHelpers(fn).
+func CallsToWithHelpers(fn *ssa.Function, name string, maxBlocks int) []ssa.CallInstruction {
+	var out []ssa.CallInstruction
+	for _, f := range WithHelpers(fn, maxBlocks) {
+		out = append(out, CallsTo(f, name)...)
+	}
+	return out
+}
